@@ -264,11 +264,13 @@ Qed.
 (* THE INVARIANT                                                                                               *)
 Section Proofs.
 Variable rt : bool -> Z -> Z.
+Variable view : Z -> Z -> Z.
 Notation back := (back rt).
-Notation step := (step rt).
-Notation run := (run rt).
+Notation seen := (seen rt view).
+Notation step := (step rt view).
+Notation run := (run rt view).
 Notation abs := (abs rt).
-Notation load := (load rt).
+Notation load := (load rt view).
 
 Record Inv (s : store) : Prop := {
   inv_ks : keys s = keyspace s;                                    (* the open object agrees with the persisted node *)
@@ -279,7 +281,7 @@ Record Inv (s : store) : Prop := {
   inv_ksf : find ks_key (file_of s) = None;
   inv_fnodup : NoDup (map fst (file_of s));
   inv_noov : forall k k', In k (keys s) -> In k' (keys s) -> strict_prefix k k' = false;   (* no key extends another *)
-  inv_cache : forall k i, find k (cache s) = Some i -> exists n, find k (file_of s) = Some n /\ back n = i
+  inv_cache : forall k i, find k (cache s) = Some i -> exists n, find k (file_of s) = Some n /\ seen (filt s) n = i
 }.
 
 Lemma inv_init : Inv init.
@@ -292,7 +294,7 @@ Proof.
   - intros k k' [H|[]] [H'|[]]. subst. reflexivity.
 Qed.
 
-Lemma store_eta s : {| file_of := file_of s; keyspace := keyspace s; keys := keys s; cache := cache s |} = s.
+Lemma store_eta s : {| file_of := file_of s; keyspace := keyspace s; keys := keys s; cache := cache s; filt := filt s |} = s.
 Proof. now destruct s. Qed.
 
 (* a key that overlaps no key of the artifact has a free, independent place in the HDF tree *)
@@ -319,7 +321,7 @@ Proof. intros I Hk. apply no_overlap_clean; [assumption | now apply own_key_no_o
 
 (* ---- write ---- *)
 Definition added (s : store) (k : key) (n : node) : store :=
-  {| file_of := file_of s ++ [(k, n)]; keyspace := keys s ++ [k]; keys := keys s ++ [k]; cache := cache s |}.
+  {| file_of := file_of s ++ [(k, n)]; keyspace := keys s ++ [k]; keys := keys s ++ [k]; cache := cache s; filt := filt s |}.
 
 Lemma inv_add s k n : Inv s -> ~ In k (keys s) -> valid_key k = true -> existsb (overlaps k) (keys s) = false ->
   Inv (added s k n).
@@ -384,7 +386,7 @@ Qed.
 (* ---- remove ---- *)
 Definition removed (s : store) (k : key) : store :=
   {| file_of := del k (file_of s); keyspace := remove_first k (keys s); keys := remove_first k (keys s);
-     cache := del k (cache s) |}.
+     cache := del k (cache s); filt := filt s |}.
 
 Lemma inv_remove s k : Inv s -> In k (keys s) -> k <> ks_key -> Inv (removed s k).
 Proof.
@@ -433,7 +435,7 @@ Definition replaced (s : store) (k : key) (n : node) : store := added (removed s
 (* the state after a replace whose write raised: the old node is back, the key list is as it was, the key's cache
    entry is gone *)
 Definition restored (s : store) (k : key) (n : node) : store :=
-  {| file_of := del k (file_of s) ++ [(k, n)]; keyspace := keys s; keys := keys s; cache := del k (cache s) |}.
+  {| file_of := del k (file_of s) ++ [(k, n)]; keyspace := keys s; keys := keys s; cache := del k (cache s); filt := filt s |}.
 
 Lemma removed_facts s k : Inv s -> In k (keys s) -> k <> ks_key ->
   ~ In k (keys (removed s k)) /\ valid_key k = true /\ existsb (overlaps k) (keys (removed s k)) = false.
@@ -529,7 +531,7 @@ Qed.
 (* C19_inv, one step: EVERY operation - accepted or rejected - preserves the invariant *)
 Theorem step_inv s o : Inv s -> Inv (fst (step s o)).
 Proof.
-  intros I. destruct o as [k d|k|k|k d| |]; simpl.
+  intros I. destruct o as [k d|k|k|k d| |f]; simpl.
   - now apply write_inv.
   - now apply load_inv.
   - now apply remove_inv.
@@ -544,20 +546,20 @@ Proof. induction ops as [|o r IH]; intros s I; simpl; [assumption|]. apply IH. n
 (* ---------------------------------------------------------------------------------------------------------- *)
 (* OBSERVATIONAL EQUALITY: same keys, same persisted keys, same content under every key (the cache and the order of the
    file's nodes are not observable) - and it is a bisimulation                                                  *)
-Definition sim (s1 s2 : store) : Prop :=
+Definition sim0 (s1 s2 : store) : Prop :=
   feq (file_of s1) (file_of s2) /\ keyspace s1 = keyspace s2 /\ keys s1 = keys s2.
 
-Lemma sim_refl s : sim s s.
+Lemma sim0_refl s : sim0 s s.
 Proof. split; [apply feq_refl | split; reflexivity]. Qed.
-Lemma sim_sym s1 s2 : sim s1 s2 -> sim s2 s1.
+Lemma sim0_sym s1 s2 : sim0 s1 s2 -> sim0 s2 s1.
 Proof. intros [H1 [H2 H3]]. split; [intros k; symmetry; apply H1 | split; congruence]. Qed.
-Lemma sim_trans s1 s2 s3 : sim s1 s2 -> sim s2 s3 -> sim s1 s3.
+Lemma sim0_trans s1 s2 s3 : sim0 s1 s2 -> sim0 s2 s3 -> sim0 s1 s3.
 Proof. intros [A1 [A2 A3]] [B1 [B2 B3]]. split; [intros k; rewrite (A1 k); apply B1 | split; congruence]. Qed.
 
 Fixpoint outs (s : store) (ops : list op) : list out :=
   match ops with [] => [] | o :: r => snd (step s o) :: outs (fst (step s o)) r end.
 
-Lemma write_sim s1 s2 k d : sim s1 s2 -> snd (write s1 k d) = snd (write s2 k d) /\ sim (fst (write s1 k d)) (fst (write s2 k d)).
+Lemma write_sim0 s1 s2 k d : sim0 s1 s2 -> snd (write s1 k d) = snd (write s2 k d) /\ sim0 (fst (write s1 k d)) (fst (write s2 k d)).
 Proof.
   intros [Hf [Hs Hk]]. unfold write. rewrite Hk. destruct (memk k (keys s2)); [repeat split; assumption|].
   destruct (hdf_write_feq _ _ k d Hf) as [E1 E2].
@@ -567,20 +569,20 @@ Proof.
   all: destruct (existsb (overlaps k) (keys s2)); [repeat split; assumption|].
   all: destruct r1; simpl; repeat split; auto; now rewrite Hk.
 Qed.
-Lemma remove_sim s1 s2 k : sim s1 s2 -> snd (remove s1 k) = snd (remove s2 k) /\ sim (fst (remove s1 k)) (fst (remove s2 k)).
+Lemma remove_sim0 s1 s2 k : sim0 s1 s2 -> snd (remove s1 k) = snd (remove s2 k) /\ sim0 (fst (remove s1 k)) (fst (remove s2 k)).
 Proof.
   intros [Hf [Hs Hk]]. unfold remove. rewrite Hk, (feq_occupied _ _ k Hf).
   destruct (memk k (keys s2)); simpl; [|repeat split; assumption].
   destruct (key_eqb k ks_key); [repeat split; assumption|].
   destruct (valid_key k && occupied (file_of s2) k); simpl; repeat split; auto. now apply feq_hdf_remove.
 Qed.
-Lemma replace_sim s1 s2 k d : sim s1 s2 -> snd (replace s1 k d) = snd (replace s2 k d) /\ sim (fst (replace s1 k d)) (fst (replace s2 k d)).
+Lemma replace_sim0 s1 s2 k d : sim0 s1 s2 -> snd (replace s1 k d) = snd (replace s2 k d) /\ sim0 (fst (replace s1 k d)) (fst (replace s2 k d)).
 Proof.
   intros S. pose proof S as [Hf [Hs Hk]]. unfold replace. rewrite Hk, (Hf k).
   destruct (memk k (keys s2)); simpl; [|split; [reflexivity | assumption]].
-  destruct (remove_sim s1 s2 k S) as [R1 R2]. destruct (remove s1 k) as [a1 o1]. destruct (remove s2 k) as [a2 o2].
+  destruct (remove_sim0 s1 s2 k S) as [R1 R2]. destruct (remove s1 k) as [a1 o1]. destruct (remove s2 k) as [a2 o2].
   simpl in R1, R2. subst o2.
-  destruct (write_sim a1 a2 k d R2) as [W1 W2]. destruct (write a1 k d) as [b1 p1]. destruct (write a2 k d) as [b2 p2].
+  destruct (write_sim0 a1 a2 k d R2) as [W1 W2]. destruct (write a1 k d) as [b1 p1]. destruct (write a2 k d) as [b2 p2].
   simpl in W1, W2. subst p2.
   destruct d as [| | |i|i]; try (split; [reflexivity | assumption]).
   all: destruct (if key_eqb k ks_key then Some DUnwritable else option_map data_of (find k (file_of s2))) as [od|];
@@ -592,9 +594,9 @@ Proof.
        simpl in E1, E2; subst r2; destruct r1; simpl; repeat split; auto; now rewrite Wk.
 Qed.
 
-(* the value a successful load returns is what the file holds (cache coherence) *)
+(* the value a successful load returns is what the file holds, seen through the handle's filter (cache coherence) *)
 Lemma load_value s k : Inv s -> In k (keys s) -> k <> ks_key ->
-  exists n, find k (file_of s) = Some n /\ snd (load s k) = Loaded (back n).
+  exists n, find k (file_of s) = Some n /\ snd (load s k) = Loaded (seen (filt s) n).
 Proof.
   intros I Hk Hks. destruct (proj1 (inv_dom _ I k) Hk) as [H|H]; [contradiction|].
   destruct (find k (file_of s)) as [n|] eqn:E; [|congruence]. exists n. split; [reflexivity|].
@@ -604,27 +606,66 @@ Proof.
   - now rewrite E.
 Qed.
 Lemma load_file s k : file_of (fst (load s k)) = file_of s /\ keys (fst (load s k)) = keys s /\
-                      keyspace (fst (load s k)) = keyspace s.
+                      keyspace (fst (load s k)) = keyspace s /\ filt (fst (load s k)) = filt s.
 Proof.
   unfold load. destruct (memk k (keys s)); simpl; [|auto]. destruct (key_eqb k ks_key); [auto|].
   destruct (find k (cache s)); [auto|]. destruct (find k (file_of s)); simpl; auto.
 Qed.
 
+(* only re-opening changes the handle's filter *)
+Lemma write_filt s k d : filt (fst (write s k d)) = filt s.
+Proof.
+  unfold write. destruct (memk k (keys s)); [reflexivity|]. destruct d; try reflexivity;
+    (destruct (existsb (overlaps k) (keys s)); [reflexivity|]); destruct (hdf_write (file_of s) k _) as [f' [e|]]; reflexivity.
+Qed.
+Lemma remove_filt s k : filt (fst (remove s k)) = filt s.
+Proof.
+  unfold remove. destruct (memk k (keys s)); [|reflexivity]. simpl. destruct (key_eqb k ks_key); [reflexivity|].
+  destruct (valid_key k && occupied (file_of s) k); reflexivity.
+Qed.
+Lemma replace_filt s k d : filt (fst (replace s k d)) = filt s.
+Proof.
+  unfold replace. destruct (memk k (keys s)); [|reflexivity]. simpl.
+  destruct d; try reflexivity;
+    (destruct (if key_eqb k ks_key then Some DUnwritable else option_map data_of (find k (file_of s))) as [od|]; [|reflexivity]);
+    pose proof (remove_filt s k) as Hr; destruct (remove s k) as [s1 o1]; simpl in Hr; destruct o1; try exact Hr;
+    match goal with |- context [write s1 k ?d] => pose proof (write_filt s1 k d) as Hw; destruct (write s1 k d) as [s2 o2] end;
+    simpl in Hw; destruct o2; simpl; try congruence;
+    destruct (hdf_write (file_of s2) k od) as [f3 [e3|]]; simpl; congruence.
+Qed.
+Lemma step_filt s o : filt (fst (step s o)) = match o with Reopen f => f | _ => filt s end.
+Proof.
+  destruct o as [k d|k|k|k d| |f]; simpl; try reflexivity.
+  - apply write_filt.
+  - apply (load_file s k).
+  - apply remove_filt.
+  - apply replace_filt.
+Qed.
+
+(* same keys, same persisted keys, same (unfiltered) content under every key, same filter on the handle *)
+Definition sim (s1 s2 : store) : Prop := sim0 s1 s2 /\ filt s1 = filt s2.
+Lemma sim_refl s : sim s s.
+Proof. split; [apply sim0_refl | reflexivity]. Qed.
+
 Lemma step_sim s1 s2 o : Inv s1 -> Inv s2 -> sim s1 s2 ->
   snd (step s1 o) = snd (step s2 o) /\ sim (fst (step s1 o)) (fst (step s2 o)).
 Proof.
-  intros I1 I2 S. destruct o as [k d|k|k|k d| |]; simpl.
-  - now apply write_sim.
-  - destruct (load_file s1 k) as [A1 [A2 A3]]. destruct (load_file s2 k) as [B1 [B2 B3]].
-    destruct S as [Hf [Hs Hk]]. split; [|unfold sim; rewrite A1, A2, A3, B1, B2, B3; auto].
+  intros I1 I2 [S Hfl].
+  assert (Hfl' : filt (fst (step s1 o)) = filt (fst (step s2 o))) by (rewrite !step_filt; destruct o; congruence).
+  cut (snd (step s1 o) = snd (step s2 o) /\ sim0 (fst (step s1 o)) (fst (step s2 o))).
+  { intros [A B]. split; [assumption | split; assumption]. }
+  destruct o as [k d|k|k|k d| |f]; simpl.
+  - now apply write_sim0.
+  - destruct (load_file s1 k) as [A1 [A2 [A3 _]]]. destruct (load_file s2 k) as [B1 [B2 [B3 _]]].
+    destruct S as [Hf [Hs Hk]]. split; [|unfold sim0; rewrite A1, A2, A3, B1, B2, B3; auto].
     destruct (memk k (keys s1)) eqn:Em.
     + apply memk_In in Em. destruct (key_dec k ks_key) as [E|E].
       * subst k. unfold load. rewrite <- Hk, (proj2 (memk_In _ _) Em), key_eqb_refl. reflexivity.
       * destruct (load_value s1 k I1 Em E) as [n1 [F1 L1]]. rewrite Hk in Em.
-        destruct (load_value s2 k I2 Em E) as [n2 [F2 L2]]. rewrite L1, L2. rewrite (Hf k) in F1. congruence.
+        destruct (load_value s2 k I2 Em E) as [n2 [F2 L2]]. rewrite L1, L2, Hfl. rewrite (Hf k) in F1. congruence.
     + unfold load. rewrite <- Hk, Em. reflexivity.
-  - now apply remove_sim.
-  - now apply replace_sim.
+  - now apply remove_sim0.
+  - now apply replace_sim0.
   - destruct S as [Hf [Hs Hk]]. repeat split; assumption.
   - destruct S as [Hf [Hs Hk]]. repeat split; assumption.
 Qed.
@@ -661,7 +702,7 @@ Proof.
   - destruct (replace_cases s k d I) as [[H _]|[[n0 [Hk [Hks [Hf [Hd H]]]]]|[n [_ [_ [_ H]]]]]].
     + auto.
     + rewrite H. simpl. subst d. split; [|split; [|discriminate]].
-      * split; [|split; [simpl; symmetry; apply (inv_ks _ I) | reflexivity]]. intros k'. simpl. rewrite (find_snoc_fresh _ _ _ _ (find_del_same k (file_of s))).
+      * split; [|reflexivity]. split; [|split; [simpl; symmetry; apply (inv_ks _ I) | reflexivity]]. intros k'. simpl. rewrite (find_snoc_fresh _ _ _ _ (find_del_same k (file_of s))).
         destruct (key_eqb k k') eqn:E; [apply key_eqb_eq in E; subst k'; exact Hf|].
         apply key_eqb_neq in E. symmetry. apply find_del_other. congruence.
       * intros k' i. apply find_del_sub.
@@ -709,7 +750,7 @@ Proof. intros I. unfold remove. rewrite (proj2 (memk_In _ _) (inv_res _ I)). ref
 
 (* ---------------------------------------------------------------------------------------------------------- *)
 (* REFINEMENT TO A FINITE MAP                                                                                  *)
-Definition R (s : store) (m : amap) : Prop := forall k, abs s k = find k m.
+Definition R (s : store) (m : amap) : Prop := forall k, find k (file_of s) = find k m.
 
 Lemma abs_some_iff s k : Inv s -> (is_some (abs s k) = true <-> In k (keys s) /\ k <> ks_key).
 Proof.
@@ -726,22 +767,28 @@ Qed.
 Lemma abs_ks s : Inv s -> abs s ks_key = None.
 Proof. intros I. unfold abs. now rewrite (inv_ksf _ I). Qed.
 
+Lemma file_some_iff s k : Inv s -> (is_some (find k (file_of s)) = true <-> In k (keys s) /\ k <> ks_key).
+Proof.
+  intros I. rewrite <- (abs_some_iff s k I). unfold abs. destruct (find k (file_of s)); simpl; tauto.
+Qed.
+Lemma R_abs s m : R s m -> forall k, abs s k = option_map back (find k m).
+Proof. intros HR k. unfold abs. now rewrite (HR k). Qed.
+
 (* the keys of the artifact, as a set, are the reserved key + the domain of the map *)
 Lemma keys_set s m : Inv s -> R s m -> forall k, In k (keys s) <-> In k (ks_key :: map fst m).
 Proof.
-  intros I HR k. simpl. rewrite <- find_some_keys, <- (HR k), (inv_dom _ I k). unfold abs.
-  destruct (find k (file_of s)); simpl; split; intros [H|H]; auto; try (right; discriminate); congruence.
+  intros I HR k. simpl. rewrite <- find_some_keys, <- (HR k), (inv_dom _ I k). split; intros [H|H]; auto.
 Qed.
 
 Theorem step_refines s m o : Inv s -> R s m ->
-  R (fst (step s o)) (fst (spec_step rt m o)) /\ is_rej (snd (step s o)) = negb (snd (spec_step rt m o)).
+  R (fst (step s o)) (fst (spec_step m o)) /\ is_rej (snd (step s o)) = negb (snd (spec_step m o)).
 Proof.
   intros I HR.
   assert (Hov : forall k, existsb (overlaps k) (keys s) = existsb (overlaps k) (ks_key :: map fst m)).
   { intros k. apply existsb_set. apply (keys_set s m I HR). }
   assert (Hsome : forall k, is_some (find k m) = true <-> In k (keys s) /\ k <> ks_key).
-  { intros k. rewrite <- (HR k). apply (abs_some_iff s k I). }
-  destruct o as [k d|k|k|k d| |]; cbn [Artifact.step spec_step].
+  { intros k. rewrite <- (HR k). apply (file_some_iff s k I). }
+  destruct o as [k d|k|k|k d| |f]; cbn [Artifact.step spec_step].
   - (* write *)
     destruct (write_cases s k d I) as [[Hs [Hr Hno]]|[n [Hn [Hk [Hv [Ho Hw]]]]]].
     + rewrite Hs, Hr. destruct (node_of d) as [n|] eqn:En; [|auto].
@@ -758,12 +805,11 @@ Proof.
       assert (Hnone : find k m = None).
       { destruct (find k m) eqn:E; [|reflexivity]. exfalso. apply Hk. apply (Hsome k). now rewrite E. }
       rewrite Hv, (proj2 (key_eqb_neq _ _) Hks), Hnone, <- Hov, Ho. simpl. split; [|reflexivity].
-      intros k'. unfold abs. simpl.
-      assert (Hf : find k (file_of s) = None).
-      { specialize (HR k). unfold abs in HR. rewrite Hnone in HR. destruct (find k (file_of s)); [discriminate | reflexivity]. }
+      intros k'. simpl.
+      assert (Hf : find k (file_of s) = None) by (rewrite (HR k); exact Hnone).
       rewrite (find_snoc_fresh _ _ _ _ Hf), (find_snoc_fresh _ _ _ _ Hnone). destruct (key_eqb k k'); [reflexivity | apply HR].
   - (* load *)
-    destruct (load_file s k) as [Hf _]. split; [intros k'; unfold abs; rewrite Hf; apply HR|].
+    destruct (load_file s k) as [Hf _]. split; [intros k'; rewrite Hf; apply HR|].
     destruct (memk k (keys s)) eqn:Em.
     + apply memk_In in Em. destruct (key_dec k ks_key) as [E|E].
       * subst k. unfold load. rewrite (proj2 (memk_In _ _) Em), key_eqb_refl. simpl. now rewrite orb_true_r.
@@ -780,7 +826,7 @@ Proof.
       { destruct (is_some (find k m)) eqn:E; [|reflexivity]. apply Hsome in E. tauto. }
       rewrite Hn. auto.
     + rewrite (proj2 (Hsome k) (conj Hk Hks)). simpl. split; [|reflexivity].
-      intros k'. unfold abs. simpl. destruct (key_dec k' k) as [E|E].
+      intros k'. simpl. destruct (key_dec k' k) as [E|E].
       * subst k'. now rewrite !find_del_same.
       * rewrite !find_del_other by assumption. apply HR.
   - (* replace *)
@@ -789,12 +835,12 @@ Proof.
       destruct (is_some (find k m)) eqn:E; [|auto]. exfalso. apply Hsome in E. destruct E as [E1 E2].
       destruct Hwhy as [Hw|[Hw|[Hw|Hw]]]; try contradiction; subst d; discriminate.
     + rewrite H. subst d. simpl. split; [|reflexivity].
-      intros k'. unfold abs. simpl. rewrite (find_snoc_fresh _ _ _ _ (find_del_same k (file_of s))).
+      intros k'. simpl. rewrite (find_snoc_fresh _ _ _ _ (find_del_same k (file_of s))).
       destruct (key_eqb k k') eqn:E.
-      * apply key_eqb_eq in E. subst k'. rewrite <- (HR k). unfold abs. now rewrite Hf.
+      * apply key_eqb_eq in E. subst k'. rewrite <- (HR k). now rewrite Hf.
       * apply key_eqb_neq in E. rewrite find_del_other by congruence. apply HR.
     + rewrite H, Hn, (proj2 (Hsome k) (conj Hk Hks)). simpl. split; [|reflexivity].
-      intros k'. unfold abs. simpl.
+      intros k'. simpl.
       rewrite (find_snoc_fresh _ _ _ _ (find_del_same k (file_of s))), (find_snoc_fresh _ _ _ _ (find_del_same k m)).
       destruct (key_eqb k k') eqn:E; [reflexivity|]. apply key_eqb_neq in E.
       rewrite !find_del_other by congruence. apply HR.
@@ -802,7 +848,7 @@ Proof.
   - split; [intros k; apply HR | reflexivity].
 Qed.
 
-Theorem run_refines ops : forall s m, Inv s -> R s m -> R (run s ops) (spec_run rt m ops).
+Theorem run_refines ops : forall s m, Inv s -> R s m -> R (run s ops) (spec_run m ops).
 Proof.
   induction ops as [|o r IH]; intros s m I HR; simpl; [assumption|].
   apply IH; [now apply step_inv | apply (step_refines s m o I HR)].
@@ -815,8 +861,10 @@ Proof. intros k. reflexivity. Qed.
 Theorem keys_loadable_reopen s : Inv s ->
   (forall k, In k (keys s) <-> k = ks_key \/ abs s k <> None) /\
   (forall k, In k (keys s) <-> is_rej (snd (load s k)) = false) /\
-  keys (fst (step s Reopen)) = keys s /\
-  (forall k v, k <> ks_key -> (snd (load s k) = Loaded v <-> abs s k = Some v)).
+  (forall f, keys (fst (step s (Reopen f))) = keys s) /\
+  (* a load through the handle returns the stored content seen through the handle's filter; the content itself is whole *)
+  (forall k v, k <> ks_key ->
+     (snd (load s k) = Loaded v <-> exists n, find k (file_of s) = Some n /\ v = seen (filt s) n /\ abs s k = Some (back n))).
 Proof.
   intros I. split; [|split; [|split]].
   - intros k. rewrite (inv_dom _ I k). unfold abs. destruct (find k (file_of s)); simpl; split; intros [H|H]; auto;
@@ -826,20 +874,20 @@ Proof.
       * subst k. unfold load. now rewrite (proj2 (memk_In _ _) H), key_eqb_refl.
       * destruct (load_value s k I H E) as [n [_ Hl]]. now rewrite Hl.
     + intros H. destruct (memk k (keys s)) eqn:Em; [now apply memk_In|]. unfold load in H. rewrite Em in H. discriminate.
-  - simpl. symmetry. apply (inv_ks _ I).
+  - intros f. simpl. symmetry. apply (inv_ks _ I).
   - intros k v Hks. split.
     + intros H. destruct (memk k (keys s)) eqn:Em.
       * apply memk_In in Em. destruct (load_value s k I Em Hks) as [n [Hf Hl]]. rewrite Hl in H. inversion H; subst.
-        unfold abs. now rewrite Hf.
+        exists n. unfold abs. rewrite Hf. auto.
       * unfold load in H. rewrite Em in H. discriminate.
-    + intros H. assert (Hk : In k (keys s)) by (apply (abs_some_iff s k I); now rewrite H).
-      destruct (load_value s k I Hk Hks) as [n [Hf Hl]]. rewrite Hl. unfold abs in H. rewrite Hf in H. simpl in H. congruence.
+    + intros [n [Hf [Hv Ha]]]. assert (Hk : In k (keys s)) by (apply (abs_some_iff s k I); now rewrite Ha).
+      destruct (load_value s k I Hk Hks) as [n' [Hf' Hl]]. rewrite Hl. congruence.
 Qed.
 
 (* operations on other keys leave a key's content alone *)
-Lemma spec_untouched m o k : touches k o = false -> find k (fst (spec_step rt m o)) = find k m.
+Lemma spec_untouched m o k : touches k o = false -> find k (fst (spec_step m o)) = find k m.
 Proof.
-  destruct o as [k' d|k'|k'|k' d| |]; simpl; intros H; try reflexivity; apply key_eqb_neq in H.
+  destruct o as [k' d|k'|k'|k' d| |f]; simpl; intros H; try reflexivity; apply key_eqb_neq in H.
   - destruct (node_of d); [|reflexivity].
     destruct (valid_key k' && negb (key_eqb k' ks_key) && negb (is_some (find k' m)) && _); [|reflexivity].
     simpl. rewrite find_app. simpl. rewrite (proj2 (key_eqb_neq _ _) H). now destruct (find k m).
@@ -847,7 +895,7 @@ Proof.
   - destruct (node_of d); [|reflexivity]. destruct (is_some (find k' m)); [|reflexivity]. simpl.
     rewrite find_app. simpl. rewrite (proj2 (key_eqb_neq _ _) H), find_del_other by congruence. now destruct (find k m).
 Qed.
-Lemma spec_run_untouched ops : forall m k, (forall o, In o ops -> touches k o = false) -> find k (spec_run rt m ops) = find k m.
+Lemma spec_run_untouched ops : forall m k, (forall o, In o ops -> touches k o = false) -> find k (spec_run m ops) = find k m.
 Proof.
   induction ops as [|o r IH]; intros m k H; simpl; [reflexivity|].
   rewrite IH; [apply spec_untouched; apply H; now left | intros o' Ho'; apply H; now right].
@@ -857,43 +905,67 @@ Qed.
    further operations none of which writes, removes or replaces [k], loading [k] returns [back (node d)] *)
 Theorem load_last_written s o0 k d n post : Inv s -> (o0 = Write k d \/ o0 = Replace k d) -> node_of d = Some n ->
   snd (step s o0) = Done -> (forall o, In o post -> touches k o = false) ->
-  snd (step (run s (o0 :: post)) (Load k)) = Loaded (back n).
+  find k (file_of (run s (o0 :: post))) = Some n /\
+  snd (step (run s (o0 :: post)) (Load k)) = Loaded (seen (filt (run s (o0 :: post))) n).
 Proof.
   intros I Ho Hn Hd Hpost.
-  set (m := map (fun e => (fst e, back (snd e))) (file_of s)).
-  assert (HR : R s m).
-  { intros k'. unfold abs, m. induction (file_of s) as [|[a v] r IH]; simpl; [reflexivity|]. destruct (key_eqb a k'); auto. }
-  destruct (step_refines s m o0 I HR) as [HR1 Hrej]. rewrite Hd in Hrej. simpl in Hrej.
+  assert (HR : R s (file_of s)) by (intros k'; reflexivity).
+  destruct (step_refines s (file_of s) o0 I HR) as [HR1 Hrej]. rewrite Hd in Hrej. simpl in Hrej.
   assert (I1 : Inv (fst (step s o0))) by (now apply step_inv).
-  assert (Hk : find k (fst (spec_step rt m o0)) = Some (back n)).
+  assert (Hk : find k (fst (spec_step (file_of s) o0)) = Some n).
   { destruct Ho as [-> | ->]; simpl in *; rewrite Hn in *.
-    - destruct (valid_key k && negb (key_eqb k ks_key) && negb (is_some (find k m)) && _) eqn:C; [|discriminate].
+    - destruct (valid_key k && negb (key_eqb k ks_key) && negb (is_some (find k (file_of s))) && _) eqn:C; [|discriminate].
       simpl. apply andb_true_iff in C. destruct C as [C _]. apply andb_true_iff in C. destruct C as [_ C3].
       apply negb_true_iff in C3.
-      rewrite find_snoc_fresh, key_eqb_refl; [reflexivity|]. destruct (find k m); [discriminate | reflexivity].
-    - destruct (is_some (find k m)); [|discriminate]. simpl.
-      now rewrite (find_snoc_fresh _ _ _ _ (find_del_same k m)), key_eqb_refl. }
+      rewrite find_snoc_fresh, key_eqb_refl; [reflexivity|]. destruct (find k (file_of s)); [discriminate | reflexivity].
+    - destruct (is_some (find k (file_of s))); [|discriminate]. simpl.
+      now rewrite (find_snoc_fresh _ _ _ _ (find_del_same k (file_of s))), key_eqb_refl. }
   assert (I2 : Inv (run s (o0 :: post))) by (simpl; now apply run_inv).
-  assert (Hk2 : abs (run s (o0 :: post)) k = Some (back n)).
+  assert (Hk2 : find k (file_of (run s (o0 :: post))) = Some n).
   { simpl. rewrite (run_refines post _ _ I1 HR1 k). now rewrite spec_run_untouched. }
+  split; [exact Hk2|].
   assert (Hks : k <> ks_key).
-  { intros ->. rewrite (abs_ks _ I2) in Hk2. discriminate. }
-  apply (proj2 (proj2 (proj2 (keys_loadable_reopen _ I2))) k (back n) Hks). exact Hk2.
+  { intros ->. rewrite (inv_ksf _ I2) in Hk2. discriminate. }
+  assert (Hin : In k (keys (run s (o0 :: post)))) by (apply (inv_dom _ I2); right; congruence).
+  destruct (load_value _ k I2 Hin Hks) as [n' [Hf Hl]]. simpl in *. rewrite Hl. congruence.
+Qed.
+
+(* THE HANDLES' FILTERS NEVER REACH THE FILE: the stored content (and hence the key set and every outcome) after a
+   history does not depend on the filters the artifacts were opened with *)
+Lemma spec_step_erase m o : spec_step m (erase o) = spec_step m o.
+Proof. destruct o; reflexivity. Qed.
+Lemma spec_run_erase ops : forall m, spec_run m (map erase ops) = spec_run m ops.
+Proof. induction ops as [|o r IH]; intros m; simpl; [reflexivity|]. now rewrite spec_step_erase, IH. Qed.
+
+Theorem filter_independent ops ops' : map erase ops = map erase ops' ->
+  (forall k, find k (file_of (run init ops)) = find k (file_of (run init ops'))) /\
+  (forall k, In k (keys (run init ops)) <-> In k (keys (run init ops'))) /\
+  (forall o, is_rej (snd (step (run init ops) o)) = is_rej (snd (step (run init ops') o))).
+Proof.
+  intros E.
+  pose proof (run_refines ops init [] inv_init (fun k => eq_refl)) as R1.
+  pose proof (run_refines ops' init [] inv_init (fun k => eq_refl)) as R2.
+  assert (Em : spec_run [] ops = spec_run [] ops') by (rewrite <- (spec_run_erase ops), <- (spec_run_erase ops'), E; reflexivity).
+  pose proof (run_inv ops init inv_init) as I1. pose proof (run_inv ops' init inv_init) as I2.
+  split; [|split].
+  - intros k. now rewrite (R1 k), (R2 k), Em.
+  - intros k. rewrite (keys_set _ _ I1 R1 k), (keys_set _ _ I2 R2 k), Em. tauto.
+  - intros o. rewrite (proj2 (step_refines _ _ o I1 R1)), (proj2 (step_refines _ _ o I2 R2)), Em. reflexivity.
 Qed.
 
 (* ---------------------------------------------------------------------------------------------------------- *)
 (* CLEARING THE CACHE AND RE-OPENING ARE NEUTRAL                                                               *)
-Theorem clear_reopen_neutral s o ops : Inv s -> (o = ClearCache \/ o = Reopen) ->
+Theorem clear_reopen_neutral s o ops : Inv s -> (o = ClearCache \/ o = Reopen (filt s)) ->
   (forall k, abs (fst (step s o)) k = abs s k) /\ keys (fst (step s o)) = keys s /\
   outs (fst (step s o)) ops = outs s ops.
 Proof.
   intros I Ho.
   assert (S : sim s (fst (step s o))).
-  { destruct Ho as [-> | ->]; simpl; repeat split; auto. apply (inv_ks _ I). }
+  { destruct Ho as [-> | ->]; (split; [|reflexivity]); simpl; repeat split; auto. apply (inv_ks _ I). }
   assert (I' : Inv (fst (step s o))) by (now apply step_inv).
   repeat split.
-  - intros k. unfold abs. destruct S as [Hf _]. now rewrite <- (Hf k).
-  - destruct S as [_ [_ Hk]]. now symmetry.
+  - intros k. unfold abs. destruct S as [[Hf _] _]. now rewrite <- (Hf k).
+  - destruct S as [[_ [_ Hk]] _]. now symmetry.
   - symmetry. now apply sim_outs.
 Qed.
 
